@@ -115,7 +115,7 @@ PROPS["C17"] = dict(
          "directory -> open result class vs model checkVersion vs oracle 'accepted iff prefix FJL\\x03', directory tree hash unchanged on refusal; "
          "odd seeds: random open / clone (Database, Keyspace, tx database handles) / drop orders with second-open attempts while handles live; "
          "open results vs model vs oracle 'ok iff no handle alive'. non-trivial = marker differs from FJL\\x03, or a second open is attempted "
-         "while a handle is alive",
+         "while a handle is alive A second open attempted inside the drop of the last handle, at the moment fjall logs 'Dropping journal' (log facade as pause point), must be refused.",
     trusted_base=["flock(2) semantics, thread shutdown and the final journal sync at drop are runtime behaviour: exercised, not proved",
                   "the Dir model abstracts the directory to (marker bytes, 0.jnl present, mutation counter, live-handle count)"],
     assumptions=["one process; handles of all kinds share one lock guard (read from the source: LockedFileGuard is an Arc cloned into every Keyspace)"],
@@ -148,7 +148,7 @@ PROPS["C05"] = dict(
          "watermark compared with the model after every step, oracle 'watermark <= every live snapshot instant'. tracker: views are snapshots, clones of snapshots and iterators created from snapshots, dropped in any order, with writes / removes, memtable rotation + flush + queued compactions, major compactions in between; after every step every live view is read (point read, sometimes a full scan; iterators are advanced) and must show exactly the content it had at creation and never panic; open_snapshots() must equal the number of live views. case = random sequence of snapshot open (half the cases start with a snapshot of the fresh database, instant 0) / drop / writes "
          "(publish) / keyspace creation / tracker gc / pullup on a real database; after every step open_snapshots(), the GC watermark and "
          "the visible seqno are compared with the Lean tracker model, and the oracle 'watermark <= every live instant > 0' is checked. "
-         "non-trivial = two nonces share an instant or a gc runs while a nonce is alive",
+         "non-trivial = two nonces share an instant or a gc runs while a nonce is alive Views of the tracker engine include write transactions of a single-writer database (snapshot at the current instant, one batch, release).",
     trusted_base=["stage 1 covers the tracker; version history (lsm-tree SuperVersions) and iterators are modelled in later stages",
                   "DashMap/RwLock atomicity of single tracker operations is trusted"],
     assumptions=["each SnapshotNonce is closed exactly once (Clone/Drop discipline)"],
@@ -346,7 +346,7 @@ PROPS["C10"] = dict(
     },
     engines=[dict(bin="dbeng", args=["--mode", "c10"], cases_quick=480, cases_thorough=10000, profiles=["release"])],
     rule="as C04; journal_count after every event vs the model's eviction rule (the persisted seqno after last-level compactions is an observed input that only "
-         "lowers the model's value); crash images after evictions; 'flush every keyspace + maintenance => one journal file' as an implementation-only oracle",
+         "lowers the model's value); crash images after evictions; 'flush every keyspace + maintenance => one journal file' as an implementation-only oracle Once per run: a bulk ingestion held at ingest.locked while a writer of its keyspace starts (held at write.drawn if it gets that far), then journal rotation, maintenance and a crash image.",
     trusted_base=DB_TB,
     assumptions=["crash = process crash at an operation boundary (files as of the last completed operation); torn tails are C03"],
     level_text="Lean 4 theorems about the eviction rule and the rotation watermarks, and end to end: in every reachable state a crash right after an eviction loses nothing; "
@@ -384,7 +384,7 @@ PROPS["C12"] = dict(
     },
     engines=[dict(bin="dbeng", args=["--mode", "c12"], cases_quick=480, cases_thorough=10000, profiles=["release"])],
     rule="as C04 with create / delete / re-create over 3 names, stale handles kept or dropped, reopen and crash images anywhere; stale handles must refuse writes; directory "
-         "of a deleted keyspace gone after the last handle and queued work; ids vs the model (journal-aware reseed); contents vs reference map per name",
+         "of a deleted keyspace gone after the last handle and queued work; ids vs the model (journal-aware reseed); contents vs reference map per name Insert / remove / remove_weak through the handle of a deleted keyspace must be refused.",
     trusted_base=DB_TB,
     assumptions=["a deleted keyspace's directory may outlive the user's last handle while a sealed journal's watermark list holds a clone (finding F16)"],
     level_text="Lean 4 theorems: isolation, fresh ids in every reachable state (no id is reused while a journal mentions it), re-created names start empty; engine covers crash/reopen at every point",
@@ -418,7 +418,7 @@ PROPS["C09"] = dict(
          "fdatasync, creation of a journal file, fsync of the journal folder) must equal the Lean writer model's trace and the file bytes the model's bytes; (2) power-loss images: the child is killed before syscall n "
          "(sampled; all n in thorough), every journal file is cut to the length covered by its own last successful sync (from the shim log, per file descriptor), the active one zero-padded, reopened: the "
          "content must be the state of a prefix of the operations containing everything acknowledged before the last acknowledged sync. non-trivial = a sync "
-         "persist occurs strictly inside the workload",
+         "persist occurs strictly inside the workload One more image per workload is taken after the clean drop of the database: every operation must be there.",
     trusted_base=WR_TB + JOURNAL_TB,
     assumptions=["fsync/fdatasync make all previously written bytes of the file durable", "fsync of a directory makes the entries of the files created in it before durable"],
     level_text="Lean 4 theorems about the BufWriter + writer state machine under arbitrary fault plans; tied to the real process by syscall-trace equality and byte equality, "
@@ -439,7 +439,7 @@ PROPS["C13"] = dict(
     rule="case = journal workload as for C09; for n in a sample of the journal syscalls (all n in thorough): the n-th and every later syscall fails with EIO / ENOSPC / "
          "after a short write; per-operation results must equal the model's; oracle: no acknowledgement after the first error; reopening without faults yields a "
          "prefix of the acknowledged operations containing everything acknowledged up to the last acknowledged buffer flush, optionally followed by whole failed "
-         "operations. non-trivial = the first failing operation is neither the first nor the last",
+         "operations. non-trivial = the first failing operation is neither the first nor the last Once per run the failing call is the fsync of the worker's own journal rotation (66 MiB journal, one worker thread): every later write must be refused and dropping the database must return.",
     trusted_base=WR_TB + JOURNAL_TB,
     assumptions=["one writer thread (the poison flag is read under the journal lock; multi-thread clause is the Conc stage)"],
     level_text="Lean 4 theorem: fail-stop for all workloads and fault plans (permanent or transient, failing or short system calls) on the modelled write paths; tied to the "
@@ -467,7 +467,7 @@ PROPS["C18"] = dict(
          "(k* keep, r* remove, p* replace by a key-derived value), rotations, queued worker steps, major compactions, reopen anywhere; after every step every key of every "
          "keyspace is read: keep-keys and all keys of unassigned keyspaces must equal the reference map, filtered keys must show original or filtered form and stay filtered "
          "once seen until rewritten; keyspace_has_compaction_filter (hook) == assigner(name) after create and after reopen; the Mvcc filter model is run on the same program "
-         "until the first reopen. non-trivial = a filtered key was observed in filtered form and a reopen happened",
+         "until the first reopen. non-trivial = a filtered key was observed in filtered form and a reopen happened The tree's own configuration must carry the filter factory exactly where assigned; keyspaces with FIFO strategy, key-value separation and a small memtable are probed created and recovered.",
     trusted_base=["lsm-tree's CompactionStream filter hook is modelled as 'map the visible (newest, above-watermark) entry of each key of the compacted segment through the verdict, "
                   "then the C01 GC rule'; exercised, not verified",
                   "keyspace_has_compaction_filter (cfg fjall_verif hook) reports the factory stored in the keyspace's tree config"],
@@ -505,7 +505,7 @@ PROPS["C06"] = dict(
          "by a controller following a random schedule, with version registrations (compactions of a side keyspace) in between and block probes (a thread released into a held journal lock "
          "must not get past it); after every step counter / visible seqno / write floor / snapshot instants / read results are compared with the Lean model run on the same schedule; "
          "implementation-only oracle: every snapshot read equals 'all writes with seqno below the instant, each entirely', final content equals the acknowledged writes in seqno order. "
-         "non-trivial = another thread acted while a writer was between seqno draw and publish, and at least one read went through a snapshot",
+         "non-trivial = another thread acted while a writer was between seqno draw and publish, and at least one read went through a snapshot The conc engine also runs, once per run, every single-write path (insert / remove / remove_weak / one-item batch) queued behind a writer held at write.locked: the write that took the lock last decides get, scan and snapshot.",
     trusted_base=CONC_TB,
     assumptions=["a batch names each key of a keyspace at most once", "Keyspace::clear is not an MVCC operation and is outside this property's model"],
     level_text="Lean 4 theorem over all programs and schedules of a small-step model at lock / atomic granularity (inductive invariant: views never exceed the seqno in flight); tied to the real "
@@ -544,7 +544,7 @@ PROPS["C14"] = dict(
          "agree on effective-or-waiting, the phase reached, and the counters (sealed memtables, queued flush tasks, queued worker messages); oracle: no "
          "deadlock (some thread can always be moved) and all writers finish within the step budget. non-trivial = >= 2 rotations and a flush. "
          "conc: as C06; additionally every Keyspace::get result is compared with the model at its linearization point, block probes check that insert / remove / batch commit / rotate_memtable "
-         "cannot enter the journal critical section while another thread is inside, and the final content of every key is compared with 'acknowledged writes in seqno order'",
+         "cannot enter the journal critical section while another thread is inside, and the final content of every key is compared with 'acknowledged writes in seqno order' conc --mode c14 also runs a lock-order probe: a memtable rotation parked inside its housekeeping walk (gate = version-history lock of an idle keyspace) while a journal rotation starts; both and a plain insert must return.",
     trusted_base=CONC_TB,
     assumptions=["the write-stall clause is proved on the Stall model (one keyspace; rotation requests with memtable generations, flush = all sealed memtables, compaction messages, "
                  "bounded channel, journal lock), tied step by step by the stall engine (half of its cases with a worker channel of 2-6 messages through the capacity hook, so that a full channel is reached) "
